@@ -1,3 +1,5 @@
+import ChipFiring.Theory.Complete
+import ChipFiring.Theory.Serial
 import ChipFiring.Properties.C04
 import ChipFiring.Theory.Cert
 import ChipFiring.Model.Comb
@@ -152,5 +154,126 @@ theorem independence_is_max (G : Graph n) (S : List (Fin n)) (hS : S ∈ subsets
         exact mono xs _ _ (le_max_right _ _)
       · exact ih _ h
   exact this _ 0 (List.mem_filter.mpr ⟨hS, hi⟩)
+
+/-! ### K_n for every n (T14) -/
+
+theorem sum_range_zero (m : Nat) (g : Nat → Nat) (h : ∀ i, i < m → g i = 0) : ((List.range m).map g).sum = 0 := by
+  induction m with
+  | zero => simp
+  | succ m ih =>
+    rw [List.range_succ, List.map_append, List.sum_append, ih (fun i hi => h i (by omega))]
+    simp [h m (by omega)]
+
+theorem sum_range_single (m c : Nat) (g : Nat → Nat) (hc : c < m) (h : ∀ i, i < m → i ≠ c → g i = 0) :
+    ((List.range m).map g).sum = g c := by
+  induction m with
+  | zero => omega
+  | succ m ih =>
+    rw [List.range_succ, List.map_append, List.sum_append]
+    by_cases hcm : c = m
+    · subst hcm
+      rw [sum_range_zero c g (fun i hi => h i (by omega) (by omega))]; simp
+    · rw [ih (by omega) (fun i hi hne => h i (by omega) hne)]; simp [h m (by omega) (fun e => hcm e.symm)]
+
+/-- the edge list of K_m as generated: every unordered pair once -/
+theorem completeEdges_contrib (m : Nat) (x y : Fin m) :
+    ((completeEdges m).map fun e => contrib e x y).sum = if x = y then 0 else 1 := by
+  unfold completeEdges
+  rw [sum_map_flatMap]
+  let f : Nat → Nat → Nat := fun a b => if a < b then contrib (a, b, (1:Int)) x y else 0
+  have hin : ∀ a, (((List.range m).filterMap fun b => if a < b then some (a, b, (1 : Int)) else none).map
+      fun e => contrib e x y).sum = ((List.range m).map (f a)).sum := by
+    intro a; rw [sum_map_filterMap]; congr 1; apply List.map_congr_left; intro b _
+    simp only [f]; split <;> simp_all
+  simp only [hin]
+  by_cases hxy : x = y
+  · subst hxy
+    simp only [if_true]
+    apply sum_range_zero; intro a _
+    apply sum_range_zero; intro b _
+    simp only [f, contrib]
+    split
+    · rw [if_neg]; omega
+    · rfl
+  · simp only [hxy, if_false]
+    have hne : x.1 ≠ y.1 := fun h => hxy (Fin.ext h)
+    have hlo : min x.1 y.1 < m := by have := x.2; omega
+    have hhi : max x.1 y.1 < m := by have := x.2; have := y.2; omega
+    rw [sum_range_single m (min x.1 y.1) _ hlo]
+    · rw [sum_range_single m (max x.1 y.1) _ hhi]
+      · simp only [f, contrib]
+        rw [if_pos (by omega), if_pos (by omega)]; rfl
+      · intro b _ hb
+        simp only [f, contrib]
+        split
+        · rw [if_neg]; omega
+        · rfl
+    · intro a _ ha
+      apply sum_range_zero; intro b _
+      simp only [f, contrib]
+      split
+      · rw [if_neg]; omega
+      · rfl
+
+theorem completeEdges_isComplete (m : Nat) (G : Graph m) (h : Graph.new m false (completeEdges m) = .ok G) :
+    IsComplete G := by
+  intro x y
+  unfold Graph.new at h
+  split at h
+  · exact absurd h (by simp)
+  · split at h
+    · rename_i G' hG'
+      injection h with h; subst h
+      have := addEdges_adj (completeEdges m) (Graph.empty (n := m)) _ hG' x y
+      rw [this, completeEdges_contrib]
+      simp [Graph.empty]
+    · exact absurd h (by simp)
+
+theorem addEdges_accepts {n : Nat} (es : List (Nat × Nat × Int))
+    (h : ∀ e ∈ es, e.1 ≠ e.2.1 ∧ 0 < e.2.2 ∧ e.1 < n ∧ e.2.1 < n) (G : Graph n) :
+    (G.addEdges es).2 = true := by
+  induction es generalizing G with
+  | nil => rfl
+  | cons e es ih =>
+    obtain ⟨a, b, k⟩ := e
+    obtain ⟨hab, hk, ha, hb⟩ := h (a, b, k) (List.mem_cons_self ..)
+    unfold Graph.addEdges
+    have : ∃ G', G.addEdge a b k = .ok G' := by
+      unfold Graph.addEdge
+      simp only at hab hk ha hb
+      simp [hab, not_le.mpr hk, ref?, ha, hb]
+    obtain ⟨G', hG'⟩ := this
+    simp only [hG']
+    exact ih (fun e he => h e (List.mem_cons_of_mem _ he)) G'
+
+theorem completeEdges_valid (m : Nat) : ∀ e ∈ completeEdges m, e.1 ≠ e.2.1 ∧ 0 < e.2.2 ∧ e.1 < m ∧ e.2.1 < m := by
+  intro e he
+  unfold completeEdges at he
+  simp only [List.mem_flatMap, List.mem_range, List.mem_filterMap] at he
+  obtain ⟨a, ha, b, hb, hab⟩ := he
+  split at hab
+  · injection hab with hab; subst hab; simp; omega
+  · exact absurd hab (by simp)
+
+/-- **K_n, all n ≥ 2**: the constructor accepts the generated edge list, the resulting graph has
+    gonality n − 1, and that is the value of the published closed form (regenerated from source) -/
+theorem complete_graph_gonality_all (m : Nat) (hm : 2 ≤ m) :
+    ∃ G : Graph m, Graph.new m false (completeEdges m) = .ok G ∧ IsGonality G (m - 1) ∧
+      Gen.complete_graph_gonality (m : Int) = some (((m - 1 : Nat) : Int)) := by
+  have hacc := addEdges_accepts (completeEdges m) (completeEdges_valid m) (Graph.empty (n := m))
+  have hnew : Graph.new m false (completeEdges m) = .ok ((Graph.empty (n := m)).addEdges (completeEdges m)).1 := by
+    unfold Graph.new
+    simp only [Bool.false_eq_true, if_false]
+    generalize hh : (Graph.empty (n := m)).addEdges (completeEdges m) = p at hacc ⊢
+    obtain ⟨G, b⟩ := p
+    simp only at hacc; subst hacc; rfl
+  refine ⟨_, hnew, complete_gonality _ (completeEdges_isComplete m _ hnew) hm, ?_⟩
+  unfold Gen.complete_graph_gonality
+  rw [if_neg (by omega)]
+  push_cast [Nat.cast_sub (by omega : 1 ≤ m)]; rfl
+
+/-- the same for any presentation of K_n (any insertion order, either endpoint order) -/
+theorem complete_graph_gonality_any {m : Nat} (G : Graph m) (hK : IsComplete G) (hm : 2 ≤ m) :
+    IsGonality G (m - 1) := complete_gonality G hK hm
 
 end CF.C19
